@@ -68,7 +68,6 @@ func (ew *ExpireWatcher[T]) startExpirationWorker() {
 	for {
 		select {
 		case <-ticker.C:
-			log.Trace().Msgf("ExpireWatcher::Removing expired keys %+v\n", ew.keysToRemove)
 			ew.removeExpiredKeys()
 
 		case <-ew.stopCh:
@@ -81,6 +80,8 @@ func (ew *ExpireWatcher[T]) removeExpiredKeys() {
 	ew.mu.Lock()
 	defer ew.mu.Unlock()
 
+	// the map is printed under the lock: AddKey writes it concurrently
+	log.Trace().Msgf("ExpireWatcher::Removing expired keys %+v\n", ew.keysToRemove)
 	for key, expirationTime := range ew.keysToRemove {
 		if time.Now().Before(expirationTime) {
 			continue
